@@ -1,6 +1,8 @@
 package props
 
 import (
+	"google.golang.org/protobuf/proto"
+	"compress/gzip"
 	"bytes"
 	"context"
 	"errors"
@@ -50,6 +52,23 @@ func c07Bodies() []c07Body {
 		}},
 		{"corrupt-gzip", "error", func(p Proto, kind Kind, js bool) []byte {
 			return framed(p, kind, 1, []byte{0x1f, 0x8b, 0x08, 0x00, 0xde, 0xad})
+		}},
+		{"truncated-gzip-decodable", "error", func(p Proto, kind Kind, js bool) []byte {
+			// a gzip stream (one stored block) cut inside its data at a point where the bytes
+			// inflated so far are themselves a valid message: only the decompressor can tell
+			m := &BV{Value: []byte("nine-byte")} // 11 bytes encoded
+			var u []byte
+			for len(u) < 200 {
+				u = append(u, 15<<3, 1)
+			}
+			m.ProtoReflect().SetUnknown(u)
+			raw, _ := proto.Marshal(m)
+			var zb bytes.Buffer
+			zw, _ := gzip.NewWriterLevel(&zb, gzip.NoCompression)
+			_, _ = zw.Write(raw)
+			_ = zw.Close()
+			z := zb.Bytes()
+			return framed(p, kind, 1, z[:10+5+11+40])
 		}},
 		{"oversize", "unjudged", func(p Proto, kind Kind, js bool) []byte {
 			return framed(p, kind, 0, codecMarshal(js, &BV{Value: bytes.Repeat([]byte{'x'}, 3000)}))
